@@ -18,6 +18,9 @@
 //!    served to its time-out / indication / response / application data x transports;
 //!  * message contents (C18): requests carrying one raw attribute of each of the 65 536 types (value
 //!    lengths 0 / 4 / 8 / 20, plain and fingerprinted), and requests of each of the 4096 methods, served through the default schedule;
+//!  * phase experiment (C20 C06): a request sent 0 / 1 ms / 300 ms / 499.999999 ms plus a phase of
+//!    0, 1, 137, 500, 999, 1001, 333 333, 999 999 ns after the agent's first instant, with and without an
+//!    earlier request or idle poll: its events relative to its own send instant are always the same;
 //!  * purity (C20): each history is run three times on fresh threads, the third alongside unrelated
 //!    agents; the complete reply transcripts must be identical.
 use super::*;
@@ -179,23 +182,55 @@ fn addressing(sc: &Scenario) -> Outcome {
                 Some(r) => out.breaches.push(("C18", "matrix/peer-address".into(), "the outstanding request reports the wrong peer".into(), format!("{dest:?}"), format!("{:?}", r.peer_address()))),
                 None => out.breaches.push(("C05", "matrix/outstanding-set".into(), "a request just sent is not outstanding".into(), "Some".into(), "None".into())),
             }
-            let mut now = base;
-            let mut n_tx = 1;
-            for _ in 0..40 {
-                match a.poll(now) {
-                    StunAgentPollRet::WaitUntil(i) => {
-                        if i <= now {
-                            break;
+            // for every other scenario the agent is handed to another thread after the send (a task
+            // moved between the workers of a runtime); that thread has an agent of its own with a
+            // request outstanding, and the remaining transmissions are polled there
+            let hand_over = (sc.kind as usize + sc.n) % 2 == 1;
+            let poll_all = move |mut a: StunAgent| -> Vec<(Vec<u8>, SocketAddr, SocketAddr, TransportType)> {
+                let mut got = Vec::new();
+                let mut now = base;
+                for _ in 0..40 {
+                    match a.poll(now) {
+                        StunAgentPollRet::WaitUntil(i) => {
+                            if i <= now {
+                                break;
+                            }
+                            now = i;
                         }
-                        now = i;
+                        StunAgentPollRet::SendData(tr) => got.push((tr.data().to_vec(), tr.from, tr.to, tr.transport)),
+                        _ => break,
                     }
-                    StunAgentPollRet::SendData(tr) => {
-                        n_tx += 1;
-                        check(&mut out, &format!("transmission #{n_tx}"), tr.data(), &w, tr.from, tr.to, tr.transport);
-                    }
-                    _ => break,
                 }
+                got
+            };
+            let got = if hand_over {
+                std::thread::Builder::new()
+                    .stack_size(512 << 10)
+                    .spawn(move || {
+                        let mut other = StunAgent::builder(TransportType::Udp, "10.7.7.7:7".parse().unwrap()).build();
+                        let sw = Software::new("other-agent").unwrap();
+                        let _ = other.send(build_req(77, &sw), "10.7.7.8:8".parse().unwrap(), base);
+                        let got = poll_all(a);
+                        let _ = other.poll(base);
+                        got
+                    })
+                    .expect("spawn")
+                    .join()
+                    .unwrap_or_default()
+            } else {
+                poll_all(a)
+            };
+            let mut n_tx = 1;
+            for (data, from, to, tr) in got {
+                n_tx += 1;
+                check(&mut out, &format!("transmission #{n_tx}{}", if hand_over { " (polled on another thread)" } else { "" }), &data, &w, from, to, tr);
             }
+            let want_tx = if sc.tcp { 1 } else { 7 };
+            if n_tx != want_tx {
+                out.breaches.push(("C06", "matrix/transmissions".into(), "the default schedule did not produce the stated number of transmissions".into(), want_tx.to_string(), n_tx.to_string()));
+            }
+            out.transcript.push(n_tx as u64);
+            return out;
             let want_tx = if sc.tcp { 1 } else { 7 };
             if n_tx != want_tx {
                 out.breaches.push(("C06", "matrix/transmissions".into(), "the default schedule did not produce the stated number of transmissions".into(), want_tx.to_string(), n_tx.to_string()));
@@ -366,11 +401,91 @@ fn contents(sc: &Scenario) -> Outcome {
     out
 }
 
+/// Phase experiment (C20, "instants passed to one call do not leak into another transaction's
+/// schedule"): request B is sent `delta + phi` after the first instant the agent ever saw, for sub-
+/// microsecond and sub-millisecond phases phi, with and without an earlier request A (and an earlier idle
+/// poll); B's events, taken relative to B's own send instant, must be the same list every time.
+fn phase(sc: &Scenario) -> Outcome {
+    let base = base_instant();
+    let t = if sc.tcp { TransportType::Tcp } else { TransportType::Udp };
+    let mut out = Outcome { breaches: vec![], transcript: vec![] };
+    let deltas_ns: [u64; 4] = [0, 1_000_000, 300_000_000, 499_999_999];
+    let phis_ns: [u64; 8] = [0, 1, 137, 500, 999, 1_001, 333_333, 999_999];
+    let delta = deltas_ns[sc.n % 4];
+    let b_events = |phi: u64, earlier: u8| -> Vec<(u8, i128)> {
+        let mut a = StunAgent::builder(t, local_addr()).build();
+        let t0 = base;
+        match earlier {
+            1 => {
+                let sw = Software::new("scale-0").unwrap();
+                let _ = a.send(build_req(0, &sw), saddr(0, 1), t0);
+            }
+            2 => {
+                let _ = a.poll(t0);
+            }
+            _ => {}
+        }
+        let tb = t0 + Duration::from_nanos(delta + phi);
+        let sw = Software::new("scale-1").unwrap();
+        let wb = req_wire(1);
+        let mut ev: Vec<(u8, i128)> = Vec::new();
+        if a.send(build_req(1, &sw), saddr(0, 2), tb).is_err() {
+            return vec![(9, 0)];
+        }
+        if sc.mix == 1 {
+            if let Some(mut r) = a.mut_request_transaction(stid(1).into()) {
+                r.configure_timeout(Duration::from_millis(7), 3, Duration::from_millis(0));
+            }
+        }
+        let rel = |i: Instant| -> i128 { if i >= tb { (i - tb).as_nanos() as i128 } else { -((tb - i).as_nanos() as i128) } };
+        let mut now = tb;
+        for _ in 0..64 {
+            match a.poll(now) {
+                StunAgentPollRet::WaitUntil(i) => {
+                    if i <= now {
+                        break;
+                    }
+                    if a.request_transaction(stid(1).into()).is_none() {
+                        break;
+                    }
+                    now = i;
+                }
+                StunAgentPollRet::SendData(tr) => {
+                    if tr.data() == &wb[..] {
+                        ev.push((1, rel(now)));
+                    }
+                }
+                StunAgentPollRet::TransactionTimedOut(id) => {
+                    let k: u128 = id.into();
+                    if k == stid(1) {
+                        ev.push((2, rel(now)));
+                    }
+                }
+                StunAgentPollRet::TransactionCancelled(_) => {}
+            }
+        }
+        ev
+    };
+    let reference = b_events(0, 0);
+    out.transcript.push(h(&reference));
+    for earlier in 0..3u8 {
+        for phi in phis_ns {
+            let got = b_events(phi, earlier);
+            if got != reference {
+                out.breaches.push(("C20", "scale/phase-leak".into(), format!("the schedule of a request, taken relative to its own send instant, depends on the instant of an earlier call on the same agent (earlier call: {}, the request sent {} ns after it)", ["none", "another request", "an idle poll"][earlier as usize], delta + phi), format!("{reference:?}"), format!("{got:?}")));
+                return out;
+            }
+        }
+    }
+    out
+}
+
 pub fn run_scenario(sc: &Scenario) -> Outcome {
     match guarded(|| match sc.family.as_str() {
         "peers" => peers(sc),
         "addr" => addressing(sc),
         "contents" => contents(sc),
+        "phase" => phase(sc),
         _ => transactions(sc),
     }) {
         Ok(o) => o,
@@ -682,14 +797,16 @@ pub fn judge(prop: &str, sc: &Scenario, acc: &mut Acc) {
         "peers" => "long history: many peers",
         "addr" => "addressing matrix: local x destination x message kind",
         "contents" => "message contents: 256 attribute types served to time-out",
+        "phase" => "phase experiment: sub-microsecond offsets between calls",
         _ => "long history: many concurrent requests",
     });
 }
 
 pub fn scenarios(prop: &str, thorough: bool) -> Vec<Scenario> {
     let mut v = Vec::new();
-    let peers_max = if thorough { 70_000 } else { 10_000 };
-    let tx_max = if thorough { 4200 } else { 1100 };
+    // (the purity check runs every history three times: smaller maxima there)
+    let peers_max = if prop == "C20" { if thorough { 10_000 } else { 2_600 } } else if thorough { 70_000 } else { 10_000 };
+    let tx_max = if prop == "C20" { if thorough { 1100 } else { 300 } } else if thorough { 4200 } else { 1100 };
     let want_peers = matches!(prop, "C15" | "C20");
     let want_tx = matches!(prop, "C05" | "C06" | "C18" | "C20");
     if want_peers {
@@ -749,6 +866,15 @@ pub fn scenarios(prop: &str, thorough: bool) -> Vec<Scenario> {
                             v.push(Scenario { family: "contents".into(), tcp, kind: 255, n: block, via, mix: 0, noise: false });
                         }
                     }
+                }
+            }
+        }
+    }
+    if matches!(prop, "C20" | "C06") {
+        for tcp in [false, true] {
+            for mix in [0u8, 1] {
+                for n in 0..4usize {
+                    v.push(Scenario { family: "phase".into(), tcp, kind: 0, n, via: 0, mix, noise: false });
                 }
             }
         }
